@@ -34,9 +34,14 @@ func main() {
 		listF   = flag.Bool("list-funcs", false, "list function keys")
 		goarch  = flag.String("goarch", "", "GOARCH for file selection")
 		verbose = flag.Bool("v", false, "print every obligation")
+		audAll  = flag.Bool("audit-all", false, "with -audit: include stored benign patches that are not armed (open false alarms)")
+		noNorm  = flag.Bool("no-normalize", false, "analyse the tree as it is (debug)")
+		genCan  = flag.Bool("gen-canon", false, "print the canonical name table of the current tree (maintenance)")
 	)
 	flag.Parse()
 	verboseObs = *verbose
+	auditIncludeUnarmed = *audAll
+	NoNormalize = *noNorm
 	started := time.Now()
 	if *verif == "" {
 		exe, _ := os.Executable()
@@ -80,6 +85,15 @@ func main() {
 		os.Exit(runAudit(*repo, *verif, *prop, seed))
 	}
 
+	if *genCan {
+		p, err := LoadRepo(*repo, false, "", nil)
+		if err != nil {
+			fmt.Println("ERROR", err)
+			os.Exit(2)
+		}
+		fmt.Print(genCanon(p))
+		return
+	}
 	if *dump == "cursor" {
 		p, _ := LoadRepo(*repo, false, "", nil)
 		debugCursor2(p)
